@@ -83,10 +83,11 @@ def ref_h(p: float) -> float:
     return H_TROP - (R_AIR * t_trop / G0) * math.log(p / p_trop)
 
 
-def ref_sls(ff: float, p: float, t: float, mach: float, n_eng: int, z: float = 3.8) -> float:
+def ref_sls(ff: float, p: float, t: float, mach: float, n_eng: int, z: float = 3.8, p_sl: float = 101325.0,
+            t_sl: float = 288.15) -> float:
     """DuBois & Paynter (2006) Eq. 40, per engine."""
-    theta = t / 288.15
-    delta = p / 101325.0
+    theta = t / t_sl
+    delta = p / p_sl
     return (ff / n_eng) * math.pow(theta, z) / delta * math.exp(0.2 * mach * mach)
 
 
@@ -492,6 +493,9 @@ def sls_case(draw):
         'n_eng': draw(st.integers(1, 4)),
         'explicit_n': draw(st.booleans()),
         'k': draw(st.floats(0.01, 100.0)),
+        # the documented optional reference values (exponent, sea-level pressure and temperature), each given or left out
+        'refs': {k: draw(v) for k, v in (('z', st.floats(3.0, 4.5)), ('P_SL', st.floats(95000.0, 105000.0)),
+                                        ('T_SL', st.floats(250.0, 320.0))) if draw(st.integers(0, 2)) == 0},
     }
 
 
@@ -625,7 +629,10 @@ def meem_case(draw):
     kind = draw(st.sampled_from(['mission', 'mission', 'low_mission', 'random', 'level', 'high_random']))
     n = draw(st.integers(1, 14))
     if kind in ('mission', 'low_mission'):
-        top = draw(st.floats(5000.0, H_MAX)) if kind == 'mission' else draw(st.floats(300.0, 6000.0))
+        top = draw(st.floats(5000.0, H_MAX)) if kind == 'mission' else draw(st.one_of(
+            st.floats(300.0, 6000.0),
+            # profiles topping out at (or a hair above) the 3000 m reference level of the pressure-coefficient ramp
+            st.sampled_from([3000.0, 3000.0, 3000.0000001, 3000.5, 3001.0])))
         start = draw(st.floats(0.0, min(3000.0, top)))
         nc = draw(st.integers(1, 5))
         nl = draw(st.integers(1, 4))
@@ -812,6 +819,11 @@ def body_sls(ctx, case):
     p = [ref_p(h) for h in alts]
     n_eng = int(case['n_eng']) if case['explicit_n'] else 2
     kw = {'n_eng': n_eng} if case['explicit_n'] else {}
+    refs = case.get('refs') or {}
+    kw.update(refs)
+    rkw = {'z': refs.get('z', 3.8), 'p_sl': refs.get('P_SL', 101325.0), 't_sl': refs.get('T_SL', 288.15)}
+    for k in refs:
+        ctx.label('sls.explicit_' + k)
     if any(h > 0 and m > 0 and f > 0 for h, m, f in zip(alts, mach, ff)):
         ctx.mark_nontrivial(case)
         sample_once(ctx, case)
@@ -822,7 +834,7 @@ def body_sls(ctx, case):
         return
     r = flist(r)
     for i, v in enumerate(r):
-        e = ref_sls(ff[i], p[i], t[i], mach[i], n_eng)
+        e = ref_sls(ff[i], p[i], t[i], mach[i], n_eng, **rkw)
         if not close(v, e, REL, 0.0):
             ctx.fail('sls.eq40', 'mismatch', 'get_SLS_equivalent_fuel_flow', region(alts[i]),
                      f'ff={ff[i]!r} h={alts[i]!r} M={mach[i]!r} n={n_eng}: {v!r} vs Eq.40 {e!r}')
